@@ -126,3 +126,121 @@ def reductions(job):
             cand = dict(job)
             cand["sys_seed"] = s
             yield cand
+
+
+# ----------------------------------------------------------------------------- supplied coordinates (C04 workloads)
+def _stage1(job):
+    """Fault-free build of the same system; returns the parsed output (.gro) or None."""
+    import os
+    import shutil
+    import tempfile
+    from worlds import placement_world
+    from oracles.final_state import read_gro
+    s1 = {"index": job["index"], "run_seed": job["run_seed"] ^ 0x5151, "spec": job["spec"],
+          "opts": {k: v for k, v in job["opts"].items() if k in ("box", "density", "grid_spacing", "step_fudge", "bfudge")},
+          "tape": {}, "sys_seed": 1}
+    scratch = os.environ.get("VERIF_SCRATCH") or tempfile.gettempdir()
+    d = tempfile.mkdtemp(prefix="vs1_", dir=scratch)
+    try:
+        res = placement_world.run(s1, props=(), keep_dir=d)
+        if res["raw_status"] != "ok" or not os.path.exists(os.path.join(d, "out.gro")):
+            return None
+        return read_gro(os.path.join(d, "out.gro"))
+    finally:
+        shutil.rmtree(d, ignore_errors=True)
+
+
+def add_coordinates(job, g, profile):
+    """Turn `job` into a two-stage job: supply (part of) an earlier build as -c / -mc input."""
+    from gen import topgen
+    from oracles.final_state import write_gro_text
+    gro = _stage1(job)
+    if gro is None:
+        return False
+    spec = job["spec"]
+    truth = topgen.ground_truth(spec)          # per instance (molname, [(resid, resname, aname, atype)])
+    # residues in topology order: (instance, resid, resname, [global atom indices])
+    residues = []
+    gi = 0
+    for inst, (molname, atoms) in enumerate(truth):
+        cur = None
+        for (resid, resname, aname, _t) in atoms:
+            if cur is None or cur[1] != resid:
+                cur = [inst, resid, resname, [], molname]
+                residues.append(cur)
+            cur[3].append(gi)
+            gi += 1
+    # polyply refuses coordinates whose residue centre lies outside the box, also when they stem from its
+    # own output (backmapped atoms may stick out): such stage-1 results are not used as input
+    import numpy as np
+    for (_i, _r, _n, idxs, _m) in residues:
+        c = np.average(np.array([gro["atoms"][a]["xyz"] for a in idxs], dtype=float), axis=0)
+        c2 = np.array([round(sum(gro["atoms"][a]["xyz"][d] for a in idxs) / len(idxs), 3) for d in range(3)])
+        for cc in (c, c2):
+            if not (np.all(cc >= 0.0) and np.all(cc <= np.array(gro["box"][:3]) - 1e-3)):
+                return False
+    mode = g.choice(profile.get("coord_modes", ["full", "prefix", "prefix", "meta_full", "meta_prefix", "res", "res_prefix",
+                                                "ign", "ign"]))
+    kind = "meta" if mode.startswith("meta") else "mol"
+    nres = len(residues)
+    cut = nres
+    if "prefix" in mode:
+        cut = g.randint(1, max(1, nres - 1))
+    res_names = []
+    ignore = []
+    molnames = [m for m, _ in spec["molecules"]]
+    if mode.startswith("ign"):
+        distinct = sorted(set(molnames))
+        if len(distinct) < 2:
+            mode = "prefix"
+            cut = g.randint(1, max(1, nres - 1))
+        else:
+            ignore = g.sample(distinct, g.randint(1, min(2, len(distinct) - 1)))
+            # everything up to the last ignored instance has to be in the file
+            last_ign = max(i for i, (m, _a) in enumerate(truth) if m in ignore)
+            lo = max(k for k, r in enumerate(residues) if r[0] == last_ign) + 1
+            cut = g.randint(lo, nres) if g.random() < 0.7 else nres
+            if cut == nres and g.random() < 0.8 and lo < nres:
+                cut = g.randint(lo, nres - 1)
+    if mode.startswith("res"):
+        names = sorted({r[2] for r in residues if r[4] not in ignore})
+        res_names = g.sample(names, g.randint(1, min(2, len(names))))
+    lines = []
+    supplied_atoms = {}
+    supplied_centres = {}
+    built = []
+    for k, (inst, resid, resname, idxs, molname) in enumerate(residues):
+        if resname in res_names or k >= cut:
+            built.append([inst, resid])
+            continue
+        if kind == "mol":
+            for a in idxs:
+                at = gro["atoms"][a]
+                lines.append((at["resid"], at["resname"], at["atomname"]) + tuple(at["xyz"]))
+                supplied_atoms[str(a)] = list(at["xyz"])
+        else:
+            xyz = [round(sum(gro["atoms"][a]["xyz"][d] for a in idxs) / len(idxs), 3) for d in range(3)]
+            lines.append((resid, resname, "CG") + tuple(xyz))
+            supplied_centres[f"{inst}:{resid}"] = xyz
+    job["coord_text"] = write_gro_text("verif input", lines, gro["box"][:3])
+    job["coord_kind"] = kind
+    job["coord_box"] = gro["box"][:3]
+    job["coord_mode"] = mode
+    job["supplied_atoms"] = supplied_atoms
+    job["supplied_centres"] = supplied_centres
+    job["expected_built"] = built
+    job["ignored_instances"] = [i for i, (m, _a) in enumerate(truth) if m in ignore]
+    if res_names:
+        job["opts"]["build_res"] = res_names
+    if ignore:
+        job["opts"]["ignore"] = ignore
+    # box options: keep, drop, or contradict (input structure wins)
+    r = g.random()
+    if r < 0.4:
+        job["opts"].pop("box", None)
+        job["opts"].pop("density", None)
+    elif r < 0.55 and "box" in job["opts"]:
+        job["opts"]["box"] = [round(b + 0.5, 3) for b in job["opts"]["box"]]
+    elif "density" in job["opts"]:
+        pass
+    return True
